@@ -20,7 +20,7 @@ ASSUMPTIONS = ["elements of one sample have one type; no trailing NUL characters
                "floats compare with abs tolerance 1e-12 against the exact rational"]
 EXHAUSTIVE = {"quick": ["integer partitions N=2..12 x 3 element types", "count-vector pairs K<=3, N1,N2<=4"],
               "thorough": ["integer partitions N=2..16 x 3 element types", "count-vector pairs K<=3, N1,N2<=5"]}
-REQUIRE = {"pc_one_sample_checked": 100, "pc_two_sample_checked": 100, "pc_table_checked": 30,
+REQUIRE = {"buffer_refilled_checked": 420, "tables_edited_in_place": 28, "pc_one_sample_checked": 100, "pc_two_sample_checked": 100, "pc_table_checked": 30,
            "pc_joint_checked": 30, "pc_n_checked": 100, "tables_with_concat_collision": 3,
            "tables_with_missing": 3, "legacy_tuple_checked": 3, "legacy_tuple_nonlist_containers": 3, "relabel_checked": 100, "pc_n_with_zeros_checked": 100}
 SHARDS = {"quick": 4, "thorough": 16}
@@ -280,9 +280,17 @@ def generate(tier, seed):
     vecs = [v for N in range(1, nn + 1) for v in G.count_vectors(N, 3)]
     for a in vecs:
         for b in vecs:
-            xs = [f"k{i}" for i, m in enumerate(a) for _ in range(m)]
-            ys = [f"k{i}" for i, m in enumerate(b) for _ in range(m)]
+            # labels of different widths that are prefixes of each other (fixed-width string arrays must not truncate either sample)
+            lab = ["CAS", "CASS", "CASSLG"]
+            xs = [lab[i] for i, m in enumerate(a) for _ in range(m)]
+            ys = [lab[i] for i, m in enumerate(b) for _ in range(m)]
             yield "two", {"xs": xs, "ys": ys}, True
+    # integers against non-integral floats, and the reverse
+    yield "two", {"xs": [1, 2, 2, 3], "ys": [1.5, 2.0, 2.5, 2.0]}, True
+    yield "two", {"xs": [1.5, 2.0, 2.5], "ys": [1, 2, 2, 3]}, True
+    yield "two", {"xs": [1, 1, 2], "ys": [1.25, 1.75]}, True
+    yield "two", {"xs": ["CAF", "CAW"], "ys": ["CAFF", "CAWW", "CAF"]}, True
+    yield "two", {"xs": ["CAFF", "CAWW", "CAF"], "ys": ["CAF", "CAW"]}, True
     # collision tables (deterministic witnesses of the separator's role)
     yield "table", {"rows": [["AB", "C"], ["A", "BC"], ["AB", "C"]], "cols": ["x", "y"], "kinds": ["str", "str"]}, True
     yield "table", {"rows": [["", "AB"], ["A", "B"], ["AB", ""]], "cols": ["x", "y"], "kinds": ["str", "str"]}, True
